@@ -5,13 +5,14 @@
    werkzeug.debug on every run; specifications (host_part, names, spec_trusted, is_fail,
    is_right, count_fail) are in C20/Proofs.v. *)
 From Coq Require Import ZArith.
-From Wz Require Import lib.Bytes C20.Types C20.Str C20.Gen C20.Model C20.Proofs.
+From Wz Require Import lib.Bytes C20.Types C20.Str C20.Gen C20.Model C20.Proofs C20.CookieHeader.
 Open Scope N_scope.
 
 (* What is an input of the model and not modelled:
    - hash_pin (sha1 of the PIN text plus a salt, first 12 hex digits): c_pin_hash cfg stands for
      hash_pin(self.pin); check_pin_trust compares the text after the first bar of the cookie with it
-     by equality (atom p_hash_eq).  That sha1 is hard to invert or collide is not claimed; the source
+     by equality (atom p_hash_eq).  The statement of hash_pin - sha1 over the PIN text followed by the
+     literal salt, 12 hex digits - is pinned by the translator (Gen.hash_pin_salt, hash_pin_hex_digits).  That sha1 is hard to invert or collide is not claimed; the source
      expression of hash_pin is pinned by the translator and its value is recomputed with hashlib by the
      harness.
    - parse_cookie (C13): q_cookie q is the value it returns for the PIN cookie name.
@@ -85,11 +86,14 @@ Proof. exact untrusted_concrete. Qed.
 Print Assumptions C20_gate_untrusted_concrete.
 
 (* evaluation in the console frame (frames[0]).  The frames table is state: display_console adds frame
-   0 when it answers, a traceback adds the ids of its frames (ar_new_frames, never 0: id() of an
-   object).  For EVERY history of requests from a state without frame 0: if a request naming frame 0
-   is evaluated, the console page was served earlier in the history, to a trusted Host, with evalex. *)
+   0 when it answers; a traceback adds id(frame) for each of its frames.  Those ids are addresses of
+   live objects, never 0, so the model takes them as positive numbers (ar_new_ids); that these two are
+   the only stores into self.frames is pinned by the translator (frame_store_sites in Gen.v) and the
+   harness checks on real tracebacks that every key is id(frame) <> 0.  For EVERY history of requests
+   from a state without frame 0: if a request naming frame 0 is evaluated, the console page was served
+   earlier in the history, to a trusted Host, with evalex. *)
 Theorem C20_console_frame : forall h s q,
-  ~ In 0%Z (d_frames s) -> (forall x, In x h -> ~ In 0%Z (ar_new_frames x)) ->
+  ~ In 0%Z (d_frames s) ->
   ar_frm q = Some 0%Z -> fst (astep (arun s h) q) = OEval ->
   exists pre q' post, h = pre ++ q' :: post /\
     exists t, fst (astep (arun s pre) q') = OConsole t /\
@@ -102,6 +106,108 @@ Example C20_console_frame_example :
   fst (astep (arun st0 []) ex_eval_frame0) = OApp.
 Proof. vm_compute. split; reflexivity. Qed.
 Print Assumptions C20_console_frame_example.
+
+(* ---------------------------------------------------------------- the PIN cookie *)
+
+(* check_pin_trust on EVERY cookie value (q_cookie q = what parse_cookie returns for the PIN cookie
+   name; time.time() = q_now q is an input; hash_pin(pin) = c_pin_hash cfg is an input).  p is the
+   record of atoms the model computes from the text (split at the first bar, int() of the first part):
+   - True  iff the PIN is off, or the value is  <text int() accepts> | hash_pin(pin)  and the time
+     stamp is less than PIN_TIME seconds old (now - PIN_TIME < ts);
+   - None  iff the PIN is on and the value is  <text int() accepts> | <anything else>  - a stale hash,
+     also when more bars follow (split("|", 1));
+   - False in every other case: no cookie, empty, no bar, a time stamp int() refuses, expired. *)
+Theorem C20_pin_cookie : forall cfg q p, pin_atoms cfg q = Some p ->
+  (check_pin_trust p = TTrue <->
+     c_pin cfg = None \/
+     exists ts_str ts, q_cookie q = Some (ts_str ++ BAR :: c_pin_hash cfg) /\ mem BAR ts_str = false /\
+       parse_int ts_str = IOk ts /\ (q_now q - PIN_TIME < ts)%Z) /\
+  (check_pin_trust p = TNone <->
+     c_pin cfg <> None /\
+     exists ts_str rest ts, q_cookie q = Some (ts_str ++ BAR :: rest) /\ mem BAR ts_str = false /\
+       parse_int ts_str = IOk ts /\ rest <> c_pin_hash cfg) /\
+  (check_pin_trust p = TFalse <-> ~ pin_cookie_valid cfg q /\ ~ pin_cookie_stale cfg q).
+Proof. exact pin_cookie_classes. Qed.
+Print Assumptions C20_pin_cookie.
+
+(* the only cookie values outside the model: a non-ASCII character in the time stamp field (int()
+   also accepts Unicode digits and spaces) *)
+Theorem C20_pin_cookie_domain : forall cfg q, pin_atoms cfg q = None ->
+  exists ts_str rest, q_cookie q = Some (ts_str ++ BAR :: rest) /\ mem BAR ts_str = false /\ is_ascii_str ts_str = false.
+Proof. exact pin_atoms_domain. Qed.
+Print Assumptions C20_pin_cookie_domain.
+
+(* composed with C13's model of http.parse_cookie: the same classification for every Cookie header in
+   that model's domain; the first cookie of the name counts *)
+Theorem C20_pin_cookie_header : forall cfg q name header v p,
+  cookie_from_header name header = Some v -> pin_atoms cfg (with_cookie q v) = Some p ->
+  (check_pin_trust p = TTrue <-> pin_cookie_valid cfg (with_cookie q v)) /\
+  (check_pin_trust p = TNone <-> pin_cookie_stale cfg (with_cookie q v)) /\
+  (check_pin_trust p = TFalse <-> ~ pin_cookie_valid cfg (with_cookie q v) /\ ~ pin_cookie_stale cfg (with_cookie q v)).
+Proof. exact header_classes. Qed.
+Print Assumptions C20_pin_cookie_header.
+
+(* shapes: valid (first of two cookies of the name wins), other hash, several bars, no bar, non-integer
+   time stamp, empty value, cookie absent, expired *)
+Example C20_pin_cookie_shapes :
+  map trust_of_header [hdr_valid; hdr_stale; hdr_bars; hdr_nobar; hdr_nonint; hdr_empty; hdr_absent; hdr_expired]
+  = [Some TTrue; Some TNone; Some TNone; Some TFalse; Some TFalse; Some TFalse; Some TFalse; Some TFalse].
+Proof. vm_compute. reflexivity. Qed.
+Print Assumptions C20_pin_cookie_shapes.
+
+(* pin_auth by cookie verdict, for a request that reaches it (debugger flag, cmd=pinauth, secret, trusted
+   Host).  Stale cookie: counted as a failed attempt and the cookie is deleted - also while locked out,
+   which is how the counter can pass 11.  Valid cookie: authenticated, cookie re-issued
+   (int(time.time()) | hash_pin(pin), pinned by the translator), counter untouched.  Neither: the PIN
+   entry decides; a refusal or failure neither sets nor deletes a cookie. *)
+Theorem C20_pin_auth_cookie : forall r locked, reaches_pin_auth r = true ->
+  match a_pin_trust r with
+  | TNone => call r locked = (OPinAuth false false CkDelete, KFail)
+  | TTrue => call r locked = (OPinAuth true false CkSet, KKeep)
+  | TFalse =>
+      call r locked =
+        if locked then (OPinAuth false true CkNone, KKeep)
+        else if negb (a_pin_present r) then (ORaise KeyError, KKeep)
+        else if a_pin_matches r then (OPinAuth true false CkSet, KReset)
+        else (OPinAuth false false CkNone, KFail)
+  end.
+Proof. exact pin_auth_by_cookie. Qed.
+Print Assumptions C20_pin_auth_cookie.
+
+(* the time dimension.  time.sleep itself (blocking the worker) is OUTSIDE the model; its argument is an
+   output of the model (slept, regenerated from _fail_pin_auth: time.sleep(5.0 if count > 5 else 0.5))
+   and is compared with the recorded argument on every harness request.  Exactly the counted failures
+   sleep; an entry refused by the lock-out (exhausted) is answered without delay. *)
+Theorem C20_fail_delay : forall k count,
+  slept k count = match k with KFail => Some (if 5 <? count then 5000 else 500) | _ => None end.
+Proof. exact delay_spec. Qed.
+Print Assumptions C20_fail_delay.
+
+(* ---------------------------------------------------------------- configurations *)
+
+(* DebuggedApplication.__init__(app, evalex, request_key, console_path, console_init_func,
+   show_hidden_frames, pin_security, pin_logging):
+   - evalex            -> atom a_evalex            (dimension of every sweep; harness: both values)
+   - console_path      -> atoms a_console_path_set, a_path_is_console (dimension; harness: None and two paths)
+   - pin_security      -> atoms a_pin_is_none and a_pin_trust: False makes self.pin None, as does
+                          WERKZEUG_DEBUG_PIN=off, and check_pin_trust is then True (dimension; harness: both)
+   - pin_logging       -> atom a_pin_logging       (dimension; harness: both values)
+   - request_key       -> stored, never read (translator: fixed, fails closed if it gains a reader)
+   - show_hidden_frames-> read only by debug_application when rendering a traceback (fixed; pinned)
+   - console_init_func -> read only inside the pinned console-frame block of display_console (fixed)
+   - app               -> the wrapped application: outcome OApp
+   C20_gate and the other sweeps quantify over all atoms, hence over every combination of the four
+   flags that are dimensions.  What each switch rules out: *)
+Theorem C20_config : forall r count,
+  (a_evalex r = false -> match fst (step r count) with OEval | OConsole _ => False | _ => True end) /\
+  (a_console_path_set r = false -> match fst (step r count) with OConsole _ => False | _ => True end) /\
+  (a_pin_logging r = false \/ a_pin_is_none r = true -> fst (step r count) <> OPrintPin true).
+Proof. exact config_step. Qed.
+Print Assumptions C20_config.
+
+Theorem C20_config_pin_off : forall p, p_pin_is_none p = true -> check_pin_trust p = TTrue.
+Proof. exact pin_off_trust. Qed.
+Print Assumptions C20_config_pin_off.
 
 (* ---------------------------------------------------------------- C20_lockout *)
 
